@@ -16,7 +16,7 @@ from mc.props import c06
 
 LEVEL = "fault_enumeration"
 RULE = (
-    "(a) every decision path of the ASD optimiser (every sequence of (parameter, direction) choices, enumerated with a scripted random stream) up to maxiters = 2 (quick) / 3 (thorough) for optimize() with 1-2 spending adjustables, "
+    "(a) every decision path of the ASD optimiser (every sequence of (parameter, direction) choices, enumerated with a scripted random stream) up to maxiters = 2 (quick) / 4 (thorough) for optimize() with 1-2 spending adjustables, "
     "measurables over a single year / a range, with and without population selection, with and without a total-spend constraint, with a hard AtLeast/AtMost target that the start satisfies; and for calibrate() with 1-2 adjustables. "
     "Oracle per path: the objective recomputed by the harness from Result arrays (documented sum over years and populations) is no worse than the start's, adjusted values within bounds, hard targets still met, library objective = harness objective. "
     "(b) crash points: an exception injected into the k-th simulation for EVERY k up to the number of simulations of a reference run of Project.calibrate, optimize, Project.run_optimization and reconcile; "
@@ -104,7 +104,7 @@ def hard_ok(cfg, r):
 
 
 def cases(tier):
-    d = 2 if tier == "quick" else 3
+    d = 2 if tier == "quick" else 4
     for cfg in OPT_CONFIGS:
         yield dict(kind="opt_paths", cfg=cfg["name"], maxiters=d)
     for adj in (["p1"], ["p1", "rec"]):
